@@ -64,6 +64,10 @@ claim("C19",
       "dominance of the publish (set) by the empty-error-list branch with def-use of every parse error into that list; branch-shape check of the legacy watcher's keep-last-good update; type walk of the manager structs for stored one-shot streams; inferred lock discipline and re-entrancy in driver/config; fresh-map check of the publish; agreement table between each namespace-configuration kind's value() type and the type its manager's ShouldReload compares against",
       "Decides the gate, the keep-last-good branch shapes, the stored-stream hazard, lock hygiene, whole-set replacement and that unrelated configuration changes do not tear managers down; does not decide eventual delivery of file events. Right level: these are shape and table-agreement facts of the watcher code.")
 
+claim("C16",
+      "per-valuation interpretation of the batch loops of Mapper.FromTuple/ToTuple (subject kind in {id,set,both,none}, Validate evaluated) counting appends, readers and their 2*i+j indices and roles; capture-position check of the single-item mappers; index agreement of MapStringsToUUIDsReadOnly and of batchFromUUIDs' scatter; must-pass check that ToInternal always sets a subject; no process-local mapping cache",
+      "Decides positional and role agreement between what the mappers append to a batch and what their deferred readers index, for every feasible subject kind; does not decide UUIDv5 injectivity or the SQL round trip. Right level: stride and index agreement is a counting fact over the loop body's paths.")
+
 for p in ["C04","C05","C06","C07","C08","C09","C11","C12","C13","C14","C16","C18","C19"]:
     na(p, NOTBUILT)
 na("C10", "semantic equivalence between the parser's output and TypeScript's grammar over all programs: precedence/associativity is not a code shape every correct parser shares; no sound structural necessary condition found (and the property is known to be violated: a||b&&c parses as (a||b)&&c), so a static green light would be misleading")
